@@ -671,7 +671,8 @@ Qed.
 Lemma node_reattach_spec strict k c s :
   Inv hh s -> fst k = KStep ->
   (strict = true -> find_node k s <> None /\ find_node c s <> None /\ is_detached k s = true /\
-                    c <> k /\ creator_kind_ok (fst k) (fst c) = true) ->
+                    c <> k /\ creator_kind_ok (fst k) (fst c) = true /\
+                    mem_key c (rec_products k s) = false) ->
   wpg strict (node_reattach k c s)
       (fun s' => Inv hh s' /\ NodeOnly s s' /\
                  (forall n cn, find_node k s = Some n -> find_node c s = Some cn ->
@@ -689,7 +690,9 @@ Proof.
   destruct (key_eqb c k) eqn:Eck.
   { destruct strict; [|exact I]. cbn. destruct (Hst eq_refl) as [_ [_ [_ [H _]]]]. apply key_eqb_eq in Eck. congruence. }
   destruct (creator_kind_ok (fst k) (fst c)) eqn:Ekind; cbn [negb].
-  2:{ destruct strict; [|exact I]. cbn. destruct (Hst eq_refl) as [_ [_ [_ [_ H]]]]. congruence. }
+  2:{ destruct strict; [|exact I]. cbn. destruct (Hst eq_refl) as [_ [_ [_ [_ [H _]]]]]. congruence. }
+  destruct (mem_key c (rec_products k s)) eqn:Ecyc.
+  { destruct strict; [|exact I]. cbn. destruct (Hst eq_refl) as [_ [_ [_ [_ [_ H]]]]]. congruence. }
   apply key_eqb_neq in Eck.
   set (det := ndet cn).
   set (s1 := upd_node k (fun n => mkNode (nk n) (Some c) det) s).
